@@ -53,5 +53,12 @@ theorem agree_to_uci (m : Mv) (p : Position) (h1 : m.src < 64) (h2 : m.dst < 64)
   · exact to_uci_aux _ _ h1 ht _
   · exact to_uci_aux _ _ (flipSq_lt h1) (flipSq_lt ht) _
 
+/-- `Mv::flipped` (chess/mv.rs). -/
+theorem agree_mv_flipped (m : Mv) : R.mv_flipped m = ⟨flipSq m.src, flipSq m.dst, m.promo⟩ := rfl
+
 example : R.to_uci ⟨12, 28, 6⟩ Gen.startpos = some "e2e4".toList := by decide
 end Rawr
+
+#print axioms Rawr.agree_square_fmt
+#print axioms Rawr.agree_to_uci
+#print axioms Rawr.agree_mv_flipped
